@@ -1,7 +1,330 @@
-//! C17 monitors (T1-T6).
+//! C17 monitors (T1-T6) and C09's Z6 (plan sizes).
+
+use std::collections::BTreeSet;
+
+use bitcoin::bip32::{DerivationPath, Fingerprint};
+use bitcoin::hashes::Hash;
 use bitcoin::psbt::Psbt;
-use miniscript::plan::Assets;
-use crate::monitors::Produced;
-use crate::sim::World;
-pub fn check_plan_vs_satisfier(_w: &mut World, _actor: &str, _psbt: &Psbt, _i: usize, _produced: &[Produced], _ok: [bool; 4]) {}
-pub fn check_plan_from_assets(_w: &mut World, _i: usize, _assets: &Assets) {}
+use bitcoin::{absolute, transaction, Amount, ScriptBuf, Sequence, Transaction, TxIn, TxOut, Witness};
+use miniscript::plan::{Assets, Plan};
+use miniscript::DefiniteDescriptorKey;
+
+use crate::gen::OutKind;
+use crate::keys::HashKind;
+use crate::monitors::{exec_spend, guard, raise_class, Produced};
+use crate::rng::{fnv, mix};
+use crate::sim::{Env, World};
+use crate::vm::{Flags, VmError};
+use crate::wallet::{god_sat, WorldSat};
+
+/// The documented capability rule of `Assets::keys`, written independently: a key source
+/// (fingerprint, path) can sign for a key whose origin fingerprint matches and whose full derivation
+/// path equals `path` or extends it by exactly one step.
+pub fn model_can_sign(key_origin: &(Fingerprint, DerivationPath), src: &(Fingerprint, DerivationPath)) -> bool {
+    if key_origin.0 != src.0 {
+        return false;
+    }
+    let kp: Vec<_> = key_origin.1.into_iter().cloned().collect();
+    let sp: Vec<_> = src.1.into_iter().cloned().collect();
+    if kp == sp {
+        return true;
+    }
+    !kp.is_empty() && kp[..kp.len() - 1] == sp[..]
+}
+
+fn cap_keys(env: &Env, i: usize, assets: &Assets) -> Vec<usize> {
+    let mut out = vec![];
+    for k in &env.inputs[i].key_ids {
+        let origin = &env.uni.keys[*k].origin;
+        if assets.keys.iter().any(|(src, _)| model_can_sign(origin, src)) {
+            out.push(*k);
+        }
+    }
+    out
+}
+
+fn asset_hashes(env: &Env, assets: &Assets) -> Vec<usize> {
+    let mut out = vec![];
+    for h in &env.uni.hashes {
+        let have = match h.kind {
+            HashKind::Sha256 => assets.sha256_preimages.iter().any(|x| x.as_byte_array()[..] == h.digest[..]),
+            HashKind::Hash256 => assets.hash256_preimages.iter().any(|x| x.as_byte_array()[..] == h.digest[..]),
+            HashKind::Ripemd160 => assets.ripemd160_preimages.iter().any(|x| x.as_byte_array()[..] == h.digest[..]),
+            HashKind::Hash160 => assets.hash160_preimages.iter().any(|x| x.as_byte_array()[..] == h.digest[..]),
+        };
+        if have {
+            out.push(h.id);
+        }
+    }
+    out
+}
+
+fn tx_with(env: &Env, i: usize, lock: u32, seq: u32, version: i32) -> Transaction {
+    let n = env.inputs.len();
+    let total: u64 = env.inputs.iter().map(|x| x.utxo.value.to_sat()).sum();
+    Transaction {
+        version: transaction::Version(version),
+        lock_time: absolute::LockTime::from_consensus(lock),
+        input: (0..n)
+            .map(|k| TxIn { previous_output: env.inputs[k].outpoint, script_sig: ScriptBuf::new(), sequence: Sequence(if k == i { seq } else { 0xFFFF_FFFE }), witness: Witness::new() })
+            .collect(),
+        output: vec![TxOut { value: Amount::from_sat(total.saturating_sub(1500)), script_pubkey: env.dest_spk.clone() }],
+    }
+}
+
+fn varint(n: usize) -> usize {
+    if n < 253 {
+        1
+    } else if n <= 0xffff {
+        3
+    } else {
+        5
+    }
+}
+
+fn check_sizes(w: &mut World, actor: &str, i: usize, plan: &Plan<DefiniteDescriptorKey>, wit: &[Vec<u8>], ss: &ScriptBuf, how: &str) {
+    let env = w.env.clone();
+    let kind = env.inputs[i].kind;
+    let text = &env.inputs[i].spec.text;
+    let real_wit = if wit.is_empty() { 0 } else { varint(wit.len()) + wit.iter().map(|x| varint(x.len()) + x.len()).sum::<usize>() };
+    let real_ss = varint(ss.len()) + ss.len();
+    let mut bad: Option<(String, String)> = None;
+    if plan.witness_size() < real_wit {
+        // the exact omission of the trailing witness-script item is a recorded finding; anything
+        // beyond that is a different violation class
+        let script_item = if matches!(kind, OutKind::Wsh | OutKind::ShWsh) { wit.last().map(|s| varint(s.len()) + s.len()).unwrap_or(0) } else { 0 };
+        let what = if script_item > 0 && plan.witness_size() + script_item >= real_wit { "witness_size:script-item-omitted" } else { "witness_size" };
+        bad = Some((what.into(), format!("Plan::witness_size {} < serialized witness {} bytes", plan.witness_size(), real_wit)));
+    } else if plan.scriptsig_size() < real_ss {
+        bad = Some(("scriptsig_size".into(), format!("Plan::scriptsig_size {} < serialized scriptSig {} bytes", plan.scriptsig_size(), real_ss)));
+    } else if plan.satisfaction_weight() < real_wit + 4 * real_ss {
+        // unreachable when the two parts are bounds, kept as a cross-check
+        bad = Some(("satisfaction_weight".into(), format!("Plan::satisfaction_weight {} < real {}", plan.satisfaction_weight(), real_wit + 4 * real_ss)));
+    }
+    w.stats.probe("plan_sizes_checked");
+    if let Some((what, detail)) = bad {
+        let cls = format!("{}:{:?}", what, kind);
+        if w.mon.on("C17") {
+            raise_class(w, "C17", "T6", format!("T6:{}", cls), format!("{} ({}): desc={}", detail, how, text), actor);
+        }
+        if w.mon.on("C09") {
+            raise_class(w, "C09", "Z6", format!("Z6:{}", cls), format!("{} ({}): desc={}", detail, how, text), actor);
+        }
+    }
+}
+
+/// Probe-time checks with the PSBT-derived satisfier: plan (provider = the satisfier itself) vs satisfier.
+pub fn check_plan_vs_satisfier(w: &mut World, actor: &str, psbt: &Psbt, i: usize, produced: &[Produced], ok: [bool; 4]) {
+    let env = w.env.clone();
+    let kind = env.inputs[i].kind;
+    let text = env.inputs[i].spec.text.clone();
+    if ok[0] != ok[2] {
+        raise_class(w, "C17", "T1", format!("T1:{:?}:nonmall", kind), format!("get_satisfaction ok={} but into_plan(+satisfy) ok={} with the same satisfier: {}", ok[0], ok[2], text), actor);
+        return;
+    }
+    if ok[1] != ok[3] {
+        raise_class(w, "C17", "T1", format!("T1:{:?}:mall", kind), format!("get_satisfaction_mall ok={} but into_plan_mall(+satisfy) ok={} with the same satisfier: {}", ok[1], ok[3], text), actor);
+        return;
+    }
+    let find = |l: &str| produced.iter().find(|p| p.label == l);
+    for (a, b) in [("get_satisfaction", "plan.satisfy"), ("get_satisfaction_mall", "plan_mall.satisfy")] {
+        if let (Some(x), Some(y)) = (find(a), find(b)) {
+            if x.wit != y.wit || x.ss != y.ss {
+                raise_class(w, "C17", "T2", format!("T2:{:?}:{}", kind, b), format!("{} and {} return different satisfactions for the same satisfier: {} | {:x} {:?} vs {:x} {:?}", a, b, text, x.ss, x.wit.len(), y.ss, y.wit.len()), actor);
+                return;
+            }
+        }
+    }
+    // sizes (T6 / Z6) on the plan completed from the PSBT
+    let sat = WorldSat::from_psbt(&env.uni, &env.by_expr, psbt, i);
+    let desc = env.inputs[i].desc.clone();
+    for mall in [false, true] {
+        let plan = guard(w, "into_plan", actor, |_| if mall { desc.clone().into_plan_mall(&sat).ok() } else { desc.clone().into_plan(&sat).ok() });
+        if let Some(Some(plan)) = plan {
+            if let Some(Ok((wit, ss))) = guard(w, "Plan::satisfy", actor, |_| plan.satisfy(&sat)) {
+                check_sizes(w, actor, i, &plan, &wit, &ss, if mall { "plan_mall" } else { "plan" });
+            }
+        }
+        if !w.violations.is_empty() {
+            return;
+        }
+    }
+}
+
+/// Epoch-time checks with the coordinator's `Assets`.
+pub fn check_plan_from_assets(w: &mut World, i: usize, assets: &Assets) {
+    let env = w.env.clone();
+    let desc = env.inputs[i].desc.clone();
+    let kind = env.inputs[i].kind;
+    let text = env.inputs[i].spec.text.clone();
+    let keys = cap_keys(&env, i, assets);
+    let hashes = asset_hashes(&env, assets);
+    let lock = assets.absolute_timelock.map(|l| l.to_consensus_u32()).unwrap_or(0);
+    let seq = assets.relative_timelock.map(|l| l.to_sequence().0).unwrap_or(0xFFFF_FFFE);
+    let tx_max = tx_with(&env, i, lock, seq, 2);
+    let sat_max = god_sat(&env, &tx_max, i, &keys, &hashes, mix(&[env.run_seed, 0x7431, i as u64]));
+    let skel = crate::monitors::skeleton_hash(&text);
+    for mall in [false, true] {
+        let plan = match guard(w, "into_plan(assets)", "coord", |_| if mall { desc.clone().into_plan_mall(assets) } else { desc.clone().into_plan(assets) }) {
+            Some(p) => p,
+            None => return,
+        };
+        if !w.mon.on("C17") {
+            continue;
+        }
+        let sat_r = guard(w, "get_satisfaction(assets world)", "coord", |_| if mall { desc.get_satisfaction_mall(&sat_max) } else { desc.get_satisfaction(&sat_max) });
+        let sat_r = match sat_r {
+            Some(r) => r,
+            None => return,
+        };
+        w.stats.oracle_calls += 1;
+        w.stats.cases.insert(mix(&[skel, fnv(format!("{:?}", keys).as_bytes()), lock as u64, seq as u64, mall as u64]));
+        if matches!(kind, OutKind::Wsh | OutKind::ShWsh | OutKind::ShMs | OutKind::TrScript) {
+            w.stats.nontrivial_cases.insert(mix(&[skel, fnv(format!("{:?}{:?}", keys, hashes).as_bytes()), lock as u64, seq as u64, mall as u64, plan.is_ok() as u64]));
+        }
+        // T1: existence
+        if plan.is_ok() != sat_r.is_ok() {
+            raise_class(
+                w,
+                "C17",
+                "T1",
+                format!("T1:{:?}:assets:{}:plan={}", kind, if mall { "mall" } else { "nonmall" }, plan.is_ok()),
+                format!(
+                    "into_plan{}(assets) {} but the satisfier with real signatures for exactly those capabilities {}: desc={} capable keys={:?} preimages={:?} after={:?} older={:?} asset key sources={}",
+                    if mall { "_mall" } else { "" },
+                    if plan.is_ok() { "succeeds" } else { "fails" },
+                    if sat_r.is_ok() { "succeeds" } else { "fails" },
+                    text,
+                    keys,
+                    hashes,
+                    assets.absolute_timelock,
+                    assets.relative_timelock,
+                    assets.keys.len()
+                ),
+                "coord",
+            );
+            return;
+        }
+        let plan = match plan {
+            Ok(p) => p,
+            Err(_) => {
+                w.stats.probe("t1_both_fail");
+                continue;
+            }
+        };
+        w.stats.probe("t1_both_succeed");
+        let (s_wit, s_ss) = sat_r.unwrap();
+        // T2: completing the plan with the same satisfier gives byte-for-byte the satisfier's result
+        let comp = match guard(w, "Plan::satisfy", "coord", |_| plan.satisfy(&sat_max)) {
+            Some(c) => c,
+            None => return,
+        };
+        match comp {
+            Ok((p_wit, p_ss)) => {
+                if p_wit != s_wit || p_ss != s_ss {
+                    raise_class(w, "C17", "T2", format!("T2:{:?}:assets:{}", kind, if mall { "mall" } else { "nonmall" }), format!("completed plan differs from the satisfier's result for the same assets: desc={}", text), "coord");
+                    return;
+                }
+            }
+            Err(e) => {
+                raise_class(w, "C17", "T2", format!("T2:{:?}:assets-incomplete", kind), format!("every named signer answered but Plan::satisfy failed ({}): desc={}", e, text), "coord");
+                return;
+            }
+        }
+        // T3: with one answer missing the plan must fail, never panic, never return a witness
+        let used: Vec<usize> = keys
+            .iter()
+            .copied()
+            .filter(|k| {
+                let b1 = sat_max.ecdsa.get(k).map(|s| s.to_vec());
+                let in_wit = |b: &Vec<u8>| s_wit.iter().any(|x| x == b) || crate::vm::parse_pushes(s_ss.as_bytes()).map(|v| v.iter().any(|x| x == b)).unwrap_or(false);
+                b1.map(|b| in_wit(&b)).unwrap_or(false) || sat_max.tap_key.get(k).map(|s| in_wit(&s.to_vec())).unwrap_or(false) || sat_max.tap_script.iter().any(|((kk, _), s)| kk == k && in_wit(&s.to_vec()))
+            })
+            .collect();
+        if let Some(k) = used.first() {
+            let mut partial = sat_max.clone();
+            partial.ecdsa.remove(k);
+            partial.tap_key.remove(k);
+            partial.tap_script.retain(|(kk, _), _| kk != k);
+            match guard(w, "Plan::satisfy(partial)", "coord", |_| plan.satisfy(&partial)) {
+                Some(Ok(_)) => {
+                    raise_class(w, "C17", "T3", format!("T3:{:?}", kind), format!("Plan::satisfy returned a witness although the signature of key {} is missing: desc={}", k, text), "coord");
+                    return;
+                }
+                Some(Err(_)) => w.stats.probe("t3_partial_refused"),
+                None => return,
+            }
+        }
+        // T4: sufficiency of the reported locks
+        let p_lock = plan.absolute_timelock.map(|l| l.to_consensus_u32()).unwrap_or(0);
+        let p_seq = plan.relative_timelock.map(|l| l.to_sequence().0).unwrap_or(0xFFFF_FFFE);
+        let tx_p = tx_with(&env, i, p_lock, p_seq, 2);
+        let sat_p = god_sat(&env, &tx_p, i, &keys, &hashes, mix(&[env.run_seed, 0x7434, i as u64]));
+        let fill = |w: &mut World, s: &WorldSat| guard(w, "Plan::satisfy", "coord", |_| plan.satisfy(s));
+        match fill(w, &sat_p) {
+            Some(Ok((wit, ss))) => {
+                w.stats.oracle_calls += 1;
+                if let Err(e) = exec_spend(w, &tx_p, i, &wit, &ss, Flags::STANDARD) {
+                    // the plan's own witness under the locks it reported
+                    let known_fd = e == VmError::SigFindAndDelete;
+                    raise_class(
+                        w,
+                        "C17",
+                        "T4",
+                        format!("T4:{:?}:{:?}{}", e, kind, if known_fd { ":fd" } else { "" }),
+                        format!("the completed plan does not validate with the locks it reports (nLockTime={} nSequence={:#x}): {:?} desc={}", p_lock, p_seq, e, text),
+                        "coord",
+                    );
+                    return;
+                }
+                check_sizes(w, "coord", i, &plan, &wit, &ss, if mall { "assets plan_mall" } else { "assets plan" });
+                if !w.violations.is_empty() {
+                    return;
+                }
+                // T5: necessity — any smaller value or the other unit makes the witness fail
+                let mut variants: Vec<(u32, u32, &'static str)> = vec![];
+                if let Some(a) = plan.absolute_timelock {
+                    let a = a.to_consensus_u32();
+                    if a > 1 && a != 500_000_000 {
+                        variants.push((a - 1, p_seq, "abs-1"));
+                    }
+                    variants.push((if a < 500_000_000 { a + 1_000_000_000 } else { a - 1_000_000_000 }, p_seq, "abs-other-unit"));
+                    variants.push((0, p_seq, "abs-zero"));
+                    if plan.relative_timelock.is_none() {
+                        variants.push((a, 0xFFFF_FFFF, "abs-final-sequence"));
+                    }
+                }
+                if let Some(r) = plan.relative_timelock {
+                    let s = r.to_sequence().0;
+                    if s & 0xffff > 0 {
+                        variants.push((p_lock, s - 1, "rel-1"));
+                    }
+                    variants.push((p_lock, s ^ (1 << 22), "rel-other-unit"));
+                    variants.push((p_lock, s | (1 << 31), "rel-disabled"));
+                }
+                for (lt, sq, what) in variants {
+                    let tx_v = tx_with(&env, i, lt, sq, 2);
+                    let sat_v = god_sat(&env, &tx_v, i, &keys, &hashes, mix(&[env.run_seed, 0x7435, lt as u64, sq as u64]));
+                    if let Some(Ok((wv, sv))) = fill(w, &sat_v) {
+                        w.stats.oracle_calls += 1;
+                        if exec_spend(w, &tx_v, i, &wv, &sv, Flags::CONSENSUS).is_ok() {
+                            raise_class(
+                                w,
+                                "C17",
+                                "T5",
+                                format!("T5:{:?}:{}", kind, what),
+                                format!("the plan's witness also validates with weaker lock fields ({}: nLockTime={} nSequence={:#x}); reported abs={:?} rel={:?}: desc={}", what, lt, sq, plan.absolute_timelock, plan.relative_timelock, text),
+                                "coord",
+                            );
+                            return;
+                        }
+                        w.stats.probe("t5_weaker_rejected");
+                    }
+                }
+            }
+            Some(Err(_)) => {}
+            None => return,
+        }
+    }
+    let _: BTreeSet<u8> = BTreeSet::new();
+}
